@@ -37,6 +37,13 @@ func c08Run(f []string) string {
 		return a
 	}
 	switch f[0] {
+	case "exprt":
+		// exprt <time world> <opt> <template> <elems> <keys>: the time world is for the model only
+		if len(f) != 6 {
+			return "bad-op"
+		}
+		a, _ := exprRun([]string{"expr", f[2], f[3], f[4], f[5]})
+		return a
 	case "exprw":
 		// exprw <color> <unicode> <noload> <path> <content|x> <opt> <template> <elems> <keys>
 		if len(f) != 10 {
@@ -167,6 +174,17 @@ var c08Helpers = []c08Helper{
 }
 
 func c08Gen(r *Rand, tier string) []string {
+	// Sub-generators of the later sections are seeded from a scrambled copy of the ENTRY state: all seeds walk
+	// one splitmix lattice (state = h + (seed+draws)*golden), and sections with a varying number of draws per
+	// round make the streams of different seeds coincide from some point on.
+	entry := r.s
+	sub := func(tag uint64) *Rand {
+		z := (entry ^ tag) * 0xBF58476D1CE4E5B9
+		z ^= z >> 29
+		z *= 0x94D049BB133111EB
+		z ^= z >> 32
+		return NewRand(z)
+	}
 	g := &c10g{r}
 	var out []string
 	add := func(opt bool, t string, el, ks []string) {
@@ -490,7 +508,8 @@ func c08Gen(r *Rand, tier string) []string {
 	// parsenum boundaries) and {format …} inside templates (format and operands as constants and as match
 	// groups, optimiser on and off) through `exprw`
 	{
-		cases := fmtGenCases(NewRand(r.U64()), tier)
+		r := sub(0x666d74)
+		cases := fmtGenCases(sub(0x666d7431), tier)
 		for i, c := range cases {
 			if tier != "thorough" && i%2 != 0 && i > 60 {
 				continue
@@ -530,6 +549,8 @@ func c08Gen(r *Rand, tier string) []string {
 			out = append(out, fmt.Sprintf("exprw 0 0 0 %s x %d %s %s %s", HexS(c08LoadFile("x")), r.Intn(2), HexS(normTemplate(t)), HexListS(el), "."))
 		}
 	}
+	// 3f. the time helpers in a time world (`exprt`, c08time.go): zone tables and dateparse answers in the case
+	out = append(out, c08tGen(sub(0x74696d65), tier)...)
 	// 4. the family generators (boundary values per helper)
 	for _, gen := range exprGens {
 		cases := c08SafeGen(gen, NewRand(r.U64()))
@@ -794,6 +815,7 @@ func c08Stats(cases []string) map[string]int {
 	st := map[string]int{}
 	fmtStats(cases, st)
 	delete(st, "op.fmt")
+	c08tStats(cases, st)
 	if c08Dropped > 0 {
 		st["dropped.resource"] = c08Dropped
 	}
@@ -812,6 +834,12 @@ func c08Stats(cases []string) map[string]int {
 		}
 		if f[0] == "funcs" && len(f) == 6 {
 			f = []string{"expr", f[1], f[3], f[4], f[5]}
+		}
+		if f[0] == "exprt" && len(f) == 6 {
+			f = []string{"expr", f[2], f[3], f[4], f[5]}
+		}
+		if len(f) != 5 {
+			continue
 		}
 		t := string(UnHex(f[2]))
 		if i := strings.IndexByte(t, '{'); i >= 0 {
